@@ -92,8 +92,63 @@ def _encoder_job(args):
     return out
 
 
+def units_token_language(repo, pcls, ctx):
+    """Languages of the token text t = next(tokens) of <pcls>.parse_units: (accepted, refused, probes) where accepted
+    = the method returns, refused = it raises / throws into the lexer, and probes = for some sets X of units texts the
+    language of t for which the units value handed to the decoder is in X.  The method is read with its helpers in
+    place; the token-stream operations are replaced by what they mean for the text: `next(tokens)` is the string
+    under test, `tokens.send(t)` puts it back (no effect on the verdict), `tokens.throw(...)` raises."""
+    import ast as _ast
+    from .inline import clone
+    after = None
+    for _ in range(8):
+        defcls, fn = repo.full_resolved(pcls, "parse_units", after)
+        if fn is None:
+            raise AnalysisError("anchor vanished: a parse_units that reads the units token")
+        tok = fn.args.args[2].arg if len(fn.args.args) >= 3 else "tokens"
+        if any(isinstance(n, _ast.Call) and norm(n.func) == "next" and n.args and norm(n.args[0]) == tok for n in _ast.walk(fn)):
+            break
+        after = defcls
+    fn = clone(fn)
+    units_args = []
+
+    class T(_ast.NodeTransformer):
+        def visit_Call(self, n):
+            self.generic_visit(n)
+            if norm(n.func) == "next" and n.args and norm(n.args[0]) == tok:
+                return _ast.Name(id="$value", ctx=_ast.Load())
+            return n
+
+        def visit_Expr(self, n):
+            self.generic_visit(n)
+            if isinstance(n.value, _ast.Call) and isinstance(n.value.func, _ast.Attribute) and norm(n.value.func.value) == tok:
+                if n.value.func.attr == "send":
+                    return _ast.copy_location(_ast.Pass(), n)
+                if n.value.func.attr == "throw":
+                    return _ast.copy_location(_ast.Raise(exc=_ast.Name(id="ValueError", ctx=_ast.Load()), cause=None), n)
+            return n
+
+        def visit_Return(self, n):
+            self.generic_visit(n)
+            if isinstance(n.value, _ast.Call) and len(n.value.args) == 2:
+                units_args.append(n.value.args[1])
+            return _ast.copy_location(_ast.Return(value=_ast.Constant(value=True)), n)
+    fn = T().visit(fn)
+    _ast.fix_missing_locations(fn)
+    ev = PE.Eval(ctx, pcls, defcls, {})
+    out = ev.block(fn.body, SL.EVERYTHING)
+    acc = out.get("T", SL.EMPTY) | out.get("V", SL.EMPTY) | out.get("ID", SL.EMPTY)
+    rej = out.get("E", SL.EMPTY)
+    probes = None
+    if len(units_args) == 1 and isinstance(units_args[0], _ast.Name) and isinstance(ev.env.get(units_args[0].id), PE.Derived):
+        chain = ev.env[units_args[0].id].chain
+        probes = lambda X: PE.pullback(chain, X)
+    return acc, rej, probes, f"{defcls}.parse_units"
+
+
 def _reader_job(args):
-    root, name, gcls, dcls = args
+    root, name, gcls, dcls = args[:4]
+    pcls = args[4] if len(args) > 4 else None
     repo = Repo(root)
     rd = lang.Reader(repo, gcls, dcls)
     out = {"config": name, "grammar": gcls, "decoder": dcls}
@@ -238,8 +293,67 @@ def _reader_job(args):
         out["wsc"]["is_wsc_misses"] = _w((want_c | want_s) - low, 2)
     except PE.Unsupported as x:
         out["wsc"]["is_wsc_error"] = str(x)
+    # UNITS-LANG: the units token <pcls>.parse_units accepts, and the units text it hands on
+    if pcls is not None:
+        d0, d1 = g.units_delimiters
+        ws = SL.syms([c for c in g.whitespace if len(c) == 1])
+        nodelim = ~SL.contains_any_char(SL.syms([d0, d1]))
+        want = SL.concat(SL.concat(SL.lit(d0), nodelim), SL.lit(d1))
+        try:
+            acc, rej, probes, where = units_token_language(repo, pcls, PE.Ctx(repo, g, dcls))
+            u = {"where": where, "extra": _w(acc - want, 3), "missing": _w(want - acc, 3), "probes": []}
+            if probes is not None:
+                wsrun = SL.star(ws)
+                for label, X in (("m", SL.lit("m")), ("a b", SL.lit("a b")), ("any text of letters", SL.rx("[a-z]+")),
+                                 ("empty", SL.EPSILON)):
+                    got = probes(X) & acc
+                    ref = SL.concat(SL.concat(SL.concat(SL.lit(d0), wsrun), SL.concat(X, wsrun)), SL.lit(d1)) & want
+                    if not (got - ref).empty() or not (ref - got).empty():
+                        u["probes"].append({"units": label, "also_from": _w(got - ref, 2), "not_from": _w(ref - got, 2)})
+            else:
+                u["probes_error"] = "the units text handed to decode_quantity is not a modelled transform of the token"
+            out["units"] = u
+        except PE.Unsupported as x:
+            out["units"] = {"error": str(x)}
     out["visited"] = sorted(set(rd.ctx.visited))
     return out
+
+
+def rule_units_lang(repo, res, an):
+    """UNITS-LANG: per pairing, the token parse_units accepts is exactly <start delimiter> <text without either
+    delimiter> <end delimiter>, and the units text handed to the decoder is that text without its leading/trailing
+    white space (language equality; pre-images of strip / slice / partition).  A token that starts a second units
+    expression inside the first, or has text after the end delimiter, is refused (thrown into the lexer), not
+    silently shortened."""
+    n = 0
+    for r in an["readers"]:
+        u = r.get("units")
+        if u is None:
+            continue
+        n += 1
+        cfg = f"{r['config']}: {r['decoder']}/{r['grammar']}"
+        if "error" in u:
+            raise AnalysisError(f"UNITS-LANG {cfg}: {u['error']}")
+        ok = not u["extra"] and not u["missing"]
+        res.oblige("UNITS-LANG", f"{cfg}: {u['where']} accepts exactly <delimiter> text-without-delimiters <delimiter>", ok=ok)
+        if u["extra"]:
+            res.add(Finding("UNITS-LANG", u["where"], "accepts a units token with a delimiter inside",
+                            f"with {cfg}, parse_units accepts the tokens {u['extra']}: a units delimiter inside the units text (or "
+                            "text outside the delimiters) is not refused, and the quantity is built from a shortened text",
+                            witness=u["extra"][0], where="pvl/parser.py"))
+        if u["missing"]:
+            res.add(Finding("UNITS-LANG", u["where"], "refuses a well-formed units token",
+                            f"with {cfg}, parse_units refuses the well-formed units expressions {u['missing']}",
+                            witness=u["missing"][0], where="pvl/parser.py"))
+        if "probes_error" in u:
+            raise AnalysisError(f"UNITS-LANG {cfg}: {u['probes_error']}")
+        res.oblige("UNITS-LANG", f"{cfg}: the units text handed to the decoder is the token's interior without surrounding white space", ok=not u["probes"])
+        for pr in u["probes"]:
+            res.add(Finding("UNITS-LANG", u["where"], "units text differs from the token's interior",
+                            f"with {cfg}, the units text {pr['units']!r} is produced from {pr['also_from']} / not produced from "
+                            f"{pr['not_from']}: the quantity carries other units than the text says", witness=(pr['also_from'] or pr['not_from'])[0],
+                            where="pvl/parser.py"))
+    res.floor("UNITS-LANG pairings", n, 5)
 
 
 def analyse(repo):
@@ -255,7 +369,7 @@ def analyse(repo):
         if (enc, g, d) not in have:
             have.add((enc, g, d))
             ejobs.append((repo.root, enc, g, d))
-    rjobs = [(repo.root, c.name, c.grammar, c.decoder) for c in tokproto.configs_from_repo(repo)]
+    rjobs = [(repo.root, c.name, c.grammar, c.decoder, c.parser) for c in tokproto.configs_from_repo(repo)]
     try:
         with ProcessPoolExecutor(max_workers=min(12, os.cpu_count() or 1)) as ex:
             fe = [ex.submit(_encoder_job, j) for j in ejobs]
